@@ -80,6 +80,8 @@ pub enum CompressedScalar {
     String(String),
     Bool(bool),
     Null,
+    /// Raw bytes (appended last: earlier variant indices are unchanged).
+    Bytes(Vec<u8>),
 }
 
 /// Compressed representation of a tensor value.
